@@ -22,6 +22,11 @@ def run(tier):
     rc1 = fam.run_family(PID, tier, runs, MODELS, RULE,
                          ["update rates are modelled as burst sizes against a closed gate, not as wall-clock throughput",
                           "timing verdicts use bounds >= 50x the configured timeout"], shards=16 if tier == "quick" else 48)
+    if rc1 == 1:
+        # a violation has been found and reported: the race stage (the same scenarios under the detector, where every
+        # hang costs its full bound again) would only add time to the verdict
+        fam.vlib.log("[race] skipped: the trace stage already reported a violation")
+        return rc1
     # subscribers share the cached notifications, the match tree and the server's tables: the same scenarios under the race detector
     rc2 = fam.race_stage(PID, tier, [("stall", 300), ("stream", 300)] if tier == "quick" else [("stall", 10000), ("stream", 10000), ("remove", 5000), ("overlap", 5000)])
     return max(rc1, rc2)
